@@ -356,4 +356,144 @@ theorem Mrt_identical_noop (v : Variant) (s : St) (hs : s.apidir = s.cfg.updir) 
 
 end Mrt
 
+/-! ## bmp-tcp-in (all five settings, every subset changed by one reload) -/
+namespace BmpIn
+
+/-- Full clause (i) for one reload: afterwards the unit holds **every** setting of the new configuration, the
+    listener is on the new address and every router page is under the new path. -/
+def BmpIn_adopted_full (v : Variant) : Prop :=
+  ∀ (s : St) (c : Cfg), Inv s →
+    (reload v s c).1.cfg = c ∧ (reload v s c).1.bound = c.listen ∧ ∀ r ∈ (reload v s c).1.routers, r.page = c.path
+
+/-- As written it is false: `http_api_path` is bound to `_http_api_path` and dropped. -/
+theorem BmpIn_adopted_counterexample_http_api_path : ¬ BmpIn_adopted_full asWritten := by
+  intro h
+  have := (h (init ⟨0, 0, 0, 0, 0⟩) ⟨0, 1, 0, 0, 0⟩ (inv_init _)).1
+  revert this
+  decide
+
+/-- **Every subset**: whichever of the five settings one reload changes (`mix a b l p t f m` takes the flagged
+    ones from `b`), the unit afterwards holds *all* of `listen`, `router_id_template`, `filter_name`,
+    `tracing_mode` of the new configuration — no setting is adopted only when another one is unchanged — and,
+    once `bmppath` is repaired, `http_api_path` too. Any variant, any state. -/
+theorem BmpIn_adopts_every_subset (v : Variant) (s : St) (b : Cfg) (l p t f m : Bool) :
+    let c := mix s.cfg b l p t f m
+    let s' := (reload v s c).1
+    s'.bound = c.listen ∧ s'.cfg.listen = c.listen ∧ s'.cfg.tmpl = c.tmpl ∧ s'.cfg.filter = c.filter ∧
+      s'.cfg.mode = c.mode ∧ (v.bmppath = .repaired → s'.cfg.path = c.path) ∧
+      (v.bmppath = .asWritten → s'.cfg.path = s.cfg.path) := by
+  cases hv : v.bmppath <;> simp [reload, hv]
+
+/-- Guarded partial (as written): with `http_api_path` unchanged — the one setting the arm ignores — the clause holds. -/
+theorem BmpIn_adopted_partial (s : St) (c : Cfg) (hi : Inv s) (hp : c.path = s.cfg.path) :
+    (reload asWritten s c).1.cfg = c ∧ (reload asWritten s c).1.bound = c.listen ∧
+      ∀ r ∈ (reload asWritten s c).1.routers, r.page = c.path := by
+  refine ⟨?_, rfl, ?_⟩
+  · simp [reload, asWritten, ← hp]
+  · intro r hr; rw [hp]; exact hi.2 r hr
+
+example : Inv (step asWritten (init ⟨0, 0, 0, 0, 0⟩) (.conn 0)).1 := step_inv (inv_init _) _
+
+/-- Repaired (`bmppath`): the full clause. -/
+theorem BmpIn_adopted_repaired (v : Variant) (hv : v.bmppath = .repaired) : BmpIn_adopted_full v := by
+  intro s c _
+  refine ⟨by simp [reload, hv], by simp [reload, hv], ?_⟩
+  intro r hr
+  simp only [reload, hv, List.mem_map] at hr
+  obtain ⟨x, _, rfl⟩ := hr
+  rfl
+
+/-- A router connecting after the reload is judged by the new configuration, every variant: refused off the new
+    address; otherwise its id is formatted with the new template, its reads start under the new tracing mode
+    and its page is registered under the path the unit holds. -/
+theorem BmpIn_conn_after_reload (v : Variant) (s : St) (c : Cfg) (slot : Nat) :
+    let s' := (reload v s c).1
+    (slot ≠ c.listen → (conn s' slot).2 = .refused) ∧
+    (slot = c.listen → (conn s' slot).2 = .ok s.next ∧
+      ∃ r ∈ (conn s' slot).1.routers, r.id = s.next ∧ r.tmpl = c.tmpl ∧ r.readMode = c.mode ∧ r.page = s'.cfg.path) := by
+  cases hv : v.bmppath <;> refine ⟨fun h => by simp [conn, reload, hv, h], fun h => ?_⟩ <;>
+    simp [conn, reload, hv, h]
+
+/-- Full clause for tracing: a message is read and traced per the mode **in force** when it arrives. -/
+def BmpIn_trace_full (v : Variant) : Prop :=
+  ∀ (s : St) (k t : Nat) (r : Router), s.routers.find? (·.conn == k) = some r →
+    (initMsg v s k t).2 = (refMsg s.cfg.mode t s.tnext).1
+
+/-- As written it is false: the read was started before the reload, with the old mode — Off→IfRequested loses
+    the first message that carries a trace id … -/
+def traceCexState : St := (reload asWritten (conn (init ⟨0, 0, 0, 0, 0⟩) 0).1 ⟨0, 0, 0, 0, 1⟩).1
+
+theorem BmpIn_trace_counterexample : ¬ BmpIn_trace_full asWritten := by
+  intro h
+  have := h traceCexState 0 3 ⟨0, 2, 0, 0, 0⟩ (by decide)
+  revert this
+  decide
+
+/-- Guarded partial (any variant): a router whose read was started under the mode in force, or any message without a
+    trace id (`t = 0`: every ordinary BMP message), is handled per the mode in force. -/
+theorem BmpIn_trace_partial (v : Variant) (s : St) (k t : Nat) (r : Router)
+    (hr : s.routers.find? (·.conn == k) = some r) (hg : r.readMode = s.cfg.mode ∨ t = 0 ∨ v.bmptrace = .repaired) :
+    (initMsg v s k t).2 = (refMsg s.cfg.mode t s.tnext).1 := by
+  have key : ∀ rm, (rm = s.cfg.mode ∨ t = 0) → readPhase rm t = readPhase s.cfg.mode t := by
+    intro rm h
+    rcases h with h | h
+    · rw [h]
+    · subst h; simp [readPhase]
+  have hrm : readPhase (readModeOf v r s.cfg.mode) t = readPhase s.cfg.mode t := by
+    unfold readModeOf
+    cases hv : v.bmptrace
+    · rcases hg with h | h | h
+      · exact key _ (Or.inl h)
+      · exact key _ (Or.inr h)
+      · rw [hv] at h; cases h
+    · rfl
+  unfold initMsg refMsg
+  simp only [hr]
+  rw [hrm]
+  cases readPhase s.cfg.mode t <;> rfl
+
+example : (initMsg asWritten traceCexState 0 0).2 = .msg true none := by decide
+
+/-- Repaired (`bmptrace`): the full clause. -/
+theorem BmpIn_trace_repaired (v : Variant) (hv : v.bmptrace = .repaired) : BmpIn_trace_full v :=
+  fun s k t r hr => BmpIn_trace_partial v s k t r hr (Or.inr (Or.inr hv))
+
+/-- (ii) Established sessions are kept by every reload, every variant: same routers, same ids, same current
+    router ids and pending reads; nothing that was counted is forgotten. -/
+theorem BmpIn_sessions_kept (v : Variant) (s : St) (c : Cfg) :
+    (reload v s c).1.routers.map (fun r => (r.conn, r.id, r.tmpl, r.readMode)) =
+      s.routers.map (fun r => (r.conn, r.id, r.tmpl, r.readMode)) ∧
+    (reload v s c).1.seen = s.seen ∧ (reload v s c).1.next = s.next ∧ (reload v s c).1.tnext = s.tnext := by
+  cases hv : v.bmppath <;> simp [reload, hv, List.map_map, Function.comp_def]
+
+/-- (iii) A reload of the configuration in force changes nothing (every variant). -/
+theorem BmpIn_identical_noop (v : Variant) (s : St) (hi : Inv s) : (reload v s s.cfg).1 = s := by
+  cases hv : v.bmppath
+  · have h1 := hi.1
+    cases s with
+    | mk cfg bound routers next nconn tnext seen =>
+      cases cfg
+      simp_all [reload]
+  · have : s.routers.map (fun r => { r with page := s.cfg.path }) = s.routers := by
+      conv => rhs; rw [← List.map_id s.routers]
+      apply List.map_congr_left
+      intro r hr
+      have := hi.2 r hr
+      cases r; simp_all
+    simp only [reload, hv, this, ← hi.1]
+
+/-- **History level**, every variant: after every history of connections, messages, closes and reloads the listener
+    is on the configured address, every router page is under the path the unit holds, and the unit holds the
+    settings of the **last** reload — all five when `bmppath` is repaired, all but the path as written. -/
+theorem BmpIn_history (v : Variant) (c0 : Cfg) (es : List Ev) :
+    Inv (run v (init c0) es) ∧
+    (run v (init c0) es).cfg = match v.bmppath with
+      | .asWritten => withPath c0.path (lastCfg c0 es)
+      | .repaired => lastCfg c0 es :=
+  ⟨run_inv (inv_init c0) es, run_cfg v (init c0) es⟩
+
+example : (run asWritten (init ⟨0, 0, 0, 0, 0⟩) [.conn 0, .reload ⟨1, 1, 1, 1, 2⟩, .init 0 0, .conn 1]).cfg = ⟨1, 0, 1, 1, 2⟩ := by decide
+
+end BmpIn
+
 end Rotonda.ReconfUnits
